@@ -1,4 +1,5 @@
 import DoltVerif.Lemmas.JournalLoss
+import DoltVerif.Lemmas.JournalWriter
 /-!
 C03 — Crash at any point recovers the last acknowledged state without loss.
 
@@ -178,5 +179,47 @@ without valid records, the recovered root is the root of the last synced root re
 theorem recovered_root_is_last_synced (B : Nat) (rs : List Rec) (t : Bytes) (h : AllFit B rs) (ht : NoValidRecord B t) :
     ∃ out off, recover B (encAll rs ++ t) = .ok out off ∧ lastRoot out = lastRootRec rs :=
   ⟨_, _, recover_torn_tail B rs t h ht, lastRoot_placed rs 0⟩
+
+/-- `ack_implies_durable`: for every sequence of writer operations (chunk writes with buffer-full
+flushes and the 64 MiB self-commit, root commits with index flushes, capacity errors), at the
+moment of every acknowledgement `Ack(r)` the journal file — as produced by the `WriteAt`s so far —
+lies entirely below the fsync watermark, and it is the base file followed by the encoding of whole
+records ending in the root record for `r`. -/
+theorem ack_implies_durable (s0 : WState) (d0 : Disk) (ops : List Op)
+    (hb : s0.buf = []) (hl : d0.file.length = s0.off) (hlog : s0.log = [])
+    (pre post : List Ev) (r : Bytes) (h : (run s0 ops).2 = pre ++ Ev.ack r :: post) :
+    (diskAfter d0 pre).durable = (diskAfter d0 pre).file.length ∧
+    ∃ recs ts, (diskAfter d0 pre).file = d0.file ++ encAll (recs ++ [Rec.root r ts]) := by
+  have hinv : Inv d0.file s0 d0 := ⟨hl, by simp [hb, hlog, encAll]⟩
+  have := (run_spec d0.file ops s0 d0 hinv).2
+  rw [h, acksDurable_append] at this
+  exact this.2.1
+
+example : ∃ evs, (run { cap := 100, maxNovel := 0, threshold := 1000 } [.chunk (zeros 20) [1, 2], .commit (zeros 20)]).2 = evs ∧
+    evs.length = 5 := ⟨_, rfl, by decide⟩
+
+theorem lastRootRec_append_root (recs : List Rec) (r : Bytes) (ts : Nat) :
+    lastRootRec (recs ++ [Rec.root r ts]) = some r := by
+  induction recs with
+  | nil => rfl
+  | cons x xs ih => simp [lastRootRec, ih]
+
+/-- `acked_root_survives_crash`: writer and recovery together.  Start from an empty journal, run any
+operations; crash at any later time with the acknowledged prefix intact and *any* tail in which no
+CRC-valid record starts: recovery succeeds and shows exactly the acknowledged root `r` (the
+in-flight suffix is discarded silently), with every acknowledged record in its place. -/
+theorem acked_root_survives_crash (B : Nat) (s0 : WState) (ops : List Op)
+    (hb : s0.buf = []) (ho : s0.off = 0) (hlog : s0.log = [])
+    (pre post : List Ev) (r : Bytes) (h : (run s0 ops).2 = pre ++ Ev.ack r :: post)
+    (t : Bytes) (ht : NoValidRecord B t)
+    (hfit : ∀ recs ts, (diskAfter ⟨[], 0⟩ pre).file = encAll (recs ++ [Rec.root r ts]) → AllFit B (recs ++ [Rec.root r ts])) :
+    ∃ out off, recover B ((diskAfter ⟨[], 0⟩ pre).file.take (diskAfter ⟨[], 0⟩ pre).durable ++ t) = .ok out off ∧
+      lastRoot out = some r := by
+  obtain ⟨hd, recs, ts, hf⟩ := ack_implies_durable s0 ⟨[], 0⟩ ops hb (by simp [ho]) hlog pre post r h
+  simp only [List.nil_append] at hf
+  rw [hd, List.take_length, hf]
+  have hfit' := hfit recs ts hf
+  refine ⟨_, _, recover_torn_tail B _ t hfit' ht, ?_⟩
+  rw [lastRoot_placed, lastRootRec_append_root]
 
 end DoltVerif.C03
